@@ -201,4 +201,51 @@ def xrReprojectDs (attrs : List String) (gm : Option String) (vars : List (Strin
     | .error e => .error e
     | .ok dst => assembleDsC attrs vars dst (hasSrcNodata (extractOutputGeoboxParams kw).2)
 
+/-! ### the nodata range check (`_check_nodata_range`, as added by 3030d9b) -/
+
+/-- the values that meet in `_xr_reproject_da` before dispatch -/
+structure NodataVals where
+  /-- `src_nodata=` keyword (absent or `None`: `none`) -/
+  srcKw : Option Rat
+  /-- `dst_nodata=` argument -/
+  dstKw : Option Rat
+  /-- `src.odc.nodata` (attribute `nodata`, else `_FillValue`) -/
+  attr : Option Rat
+  /-- range of values of `src.dtype`: `numpy.iinfo` / `numpy.finfo` bounds for integer / float kinds (for floats
+  `nan` and `±inf` also pass: not representable here, not generated), `none` for any other kind -/
+  range : Option (Rat × Rat)
+  deriving DecidableEq, Repr
+
+def inRange (range : Option (Rat × Rat)) (v : Option Rat) : Bool :=
+  match range, v with
+  | some (lo, hi), some x => decide (lo ≤ x ∧ x ≤ hi)
+  | _, _ => true
+
+/-- `src_nodata` and `dst_nodata` after their defaults (761-765): the keyword, else the attribute; `dst` defaults to
+`src` -/
+def NodataVals.src (n : NodataVals) : Option Rat := match n.srcKw with | some v => some v | Option.none => n.attr
+def NodataVals.dst (n : NodataVals) : Option Rat := match n.dstKw with | some v => some v | Option.none => n.src
+
+/-- both values must be representable by the pixel type, else `ValueError` before the warp is dispatched -/
+def nodataOk (n : NodataVals) : Bool := inRange n.range n.src && inRange n.range n.dst
+
+/-- `xr_reproject` on a DataArray including the nodata range check.  The check sits after the destination is
+known and the spatial axes were found adjacent, before the warp. -/
+def xrReprojectDaChecked (src : XArr) (how : How) (a : C11.GridArgs) (extra : List (String × KwVal))
+    (n : NodataVals) : Res XArr :=
+  match xrReprojectDa src how a extra n.dstKw.isSome with
+  | .error e => .error e
+  | .ok out => if nodataOk n then .ok out else .error .valueError
+
+/-- the Dataset variant: every variable that has a geobox goes through `_xr_reproject_da` with the same keywords;
+`n` describes those variables (same dtype / attributes in what is generated) -/
+def xrReprojectDsChecked (attrs : List String) (gm : Option String) (vars : List (String × XArr)) (how : How)
+    (a : C11.GridArgs) (extra : List (String × KwVal)) (n : NodataVals) :
+    Res (List String × List (String × XArr)) :=
+  match xrReprojectDs attrs gm vars how a extra with
+  | .error e => .error e
+  | .ok out =>
+    let anyGeo := vars.any fun nv => match recover nv.2 with | .ok .nothing => false | .ok _ => true | .error _ => false
+    if anyGeo && !nodataOk n then .error .valueError else .ok out
+
 end OdcGeo.C09
